@@ -40,7 +40,13 @@ for n in range(1, 19):
     for m in sm:
         how = m.get("caught_by") or ("quick check: VIOLATION" if m.get("check_quick_violation_lines", 0) > 0 else "MISSED by the quick check")
         details.append(f"*Seeded change `{m.get('name')}`.* {m.get('summary','')[:600]} — needs: {m.get('needs','')[:400]} — **{how}**.\n")
-txt = "\n".join(out) + "\n\n" + "\n".join(details)
+fl = ["### Findings on the unchanged tree (from `known_findings.json`)", "",
+      "`fixed` = repaired by the named `fix:` commit in /repo (the entry suppresses nothing; the check reports the violation again if it returns); `known` = recorded, reported as `KNOWN-FINDING` with its reproduction count, any other violation of the property is still a VIOLATION.", "",
+      "| id | status | commit | what |", "|---|---|---|---|"]
+for k in known:
+    what = k["what"].replace("|", "/")
+    fl.append(f"| {k['id']} | {k['status']} | {k.get('commit', '')} | {what[:420]} |")
+txt = "\n".join(out) + "\n\n" + "\n".join(fl) + "\n\n### Per property\n\n" + "\n".join(details)
 d = (ROOT / "DESIGN.md").read_text()
 b, e = "<!-- STATUS:BEGIN -->", "<!-- STATUS:END -->"
 if b in d and e in d:
